@@ -198,6 +198,7 @@ type Exec struct {
 	compileCalls int
 	cachedModel []InputRec
 	matchTable map[*value]value
+	matchOn    map[*value][]matchEntry
 	natives    map[string]value
 	faultSeq   int
 	inInit     int
@@ -260,6 +261,10 @@ func (e *Exec) feasible(t *Term) bool {
 	e.sol.Send("(push 1)")
 	e.sol.Send("(assert " + t.S + ")")
 	r := e.sol.Check()
+	if r == "unknown" && e.sol.lastErr == "" {
+		// a timeout on a loaded machine: ask once more
+		r = e.sol.Check()
+	}
 	e.sol.Send("(pop 1)")
 	if r == "unknown" {
 		e.incon("solver unknown on feasibility query: " + e.sol.lastErr)
@@ -726,6 +731,7 @@ func (e *Exec) runPath(prefix []int64) {
 	e.fs = fsModel{}
 	e.compileCalls = 0
 	e.matchTable = map[*value]value{}
+	e.matchOn = map[*value][]matchEntry{}
 	e.natives = map[string]value{}
 	e.faultSeq = 0
 	e.panicsLogged = nil
